@@ -75,6 +75,34 @@ def relists_master_instance(tree, srcs):
     return False
 
 
+def float_within_print_precision(m, ss):
+    """finding class D42: a float parameter whose working value differs from the master default only beyond the ten
+    significant digits that extract_format prints (fetch_diff compares those renderings)"""
+    try:
+        w = m.fetch(sources=ss)
+    except BaseException:
+        return False
+    md = {l.path: l.object for l in m.all_definitions()}
+    for l in w.all_definitions():
+        mo = md.get(l.path)
+        if mo is None or mo.type is None or mo.type.phil_type not in ("float", "floats"):
+            continue
+        try:
+            v, dv = l.object.extract(), mo.extract()
+        except BaseException:
+            continue
+        vs = v if isinstance(v, list) else [v]
+        ds = dv if isinstance(dv, list) else [dv]
+        if len(vs) == len(ds):
+            for a, b in zip(vs, ds):
+                if isinstance(a, float) and isinstance(b, float) and a != b and "%.10g" % a == "%.10g" % b:
+                    return True
+        elif any(isinstance(a, float) and any(isinstance(b, float) and a != b and "%.10g" % a == "%.10g" % b for b in ds)
+                 for a in vs):
+            return True
+    return False
+
+
 def run(ctx):
     rng = ctx.rng
     n = ctx.scale(1200, 30000, 6000)
@@ -98,6 +126,8 @@ def run(ctx):
                 cls.append("D8")
             if relists_master_instance(tree, srcs):
                 cls.append("D10")
+            if float_within_print_precision(m, ss):
+                cls.append("D42")
             ctx.fail(case, f, finding=cls, model_violates=None)
         # correspondence: fetch_diff of the raw sources, and of the printed working set
         reqs.append(_fetch.fetch_req(mt, srcs, diff=True))
